@@ -34,7 +34,7 @@ func genTrusted(r *gen.Rand) []string {
 				// invalid entries: the constructor must panic
 				out = append(out, gen.Pick(r, []string{"localhost", "https://*", "ftp://example.com", "https://*.*.com", "https://example.com/path", "https://example.com?x=1"}))
 			} else {
-				out = append(out, gen.Pick(r, schemes)+"://"+gen.Pick(r, domains)+" ")
+				out = append(out, gen.Pick(r, []string{"", " "})+gen.Pick(r, schemes)+"://"+gen.Pick(r, []string{"", "*."})+gen.Pick(r, domains[:6])+" ")
 			}
 		default:
 			out = append(out, gen.Pick(r, schemes)+"://"+gen.Pick(r, domains)+gen.Pick(r, ports))
@@ -95,7 +95,7 @@ func genOriginLike(r *gen.Rand, c cfgIn, host string, https bool, referer bool) 
 		case 6:
 			return pathy(pre + "sub." + dom + gen.Pick(r, []string{":8080", ".evil.io", "x"}))
 		case 7:
-			return pathy(pre + "user@sub." + dom)
+			return pathy(pre + gen.Pick(r, []string{"user@sub.", ".evil", ".x."}) + dom)
 		case 8:
 			return pathy(pre + "sub." + dom + "@evil.com")
 		default:
@@ -240,7 +240,7 @@ func genCase(r *gen.Rand, wr *gen.Writer) (cfgIn, []op, string) {
 		obs = append(obs, res)
 		// update the jar from the answer
 		f := strings.Split(res, ",")
-		if len(f) == 7 {
+		if len(f) == 8 {
 			if f[0] == "1" {
 				if unsafe {
 					wr.Count("unsafe-pass")
